@@ -7,7 +7,7 @@ s = open(p).read()
 
 WHY = {
  'replace-star': 'needs a rewrite of sortCallbacks (its orders are pinned by an existing test)',
- 'forward-reference': 'same: the ad-hoc sorter rewrites the callbacks\' own constraints; a fix is a redesign', 'star-as-anchor': 'same',
+ 'forward-reference': 'same: the ad-hoc sorter rewrites the callbacks\' own constraints; a fix is a redesign', 'star-as-anchor': 'same', 'replace-between-stars': 'same',
  'save-fallback-second-transaction': 'Save is update-then-upsert in two pipelines by design', 'save-condition-miss': 'same design: the fallback upsert ignores chain conditions',
  'idkey-collision': '`utils.ToStringKey` format is pinned by an existing unit test and used as map key in several packages', 'idkey-nil-collision': 'same', 'idkey-zero-part': 'same',
  'assoc-inline-conds-concat': 'which condition should win is not documented',
